@@ -188,7 +188,8 @@ pub fn fuzz_decode(ctx: &Ctx, o: &Map<String, J>) -> Result<J, OpErr> {
             if cpu > max_cpu_ns {
                 max_cpu_ns = cpu;
             }
-            if cpu > cpu_budget_ns {
+            // a panicking call spends its time in the monitor's own backtrace symbolisation
+            if cpu > cpu_budget_ns && rv.is_ok() {
                 agg.add("cpu-budget entry=read_value".into(), json!({"bytes": hex(b), "cpu_ms": cpu / 1_000_000}));
             }
         }
@@ -276,7 +277,7 @@ pub fn fuzz_decode(ctx: &Ctx, o: &Map<String, J>) -> Result<J, OpErr> {
                 if cpu > max_cpu_ns {
                     max_cpu_ns = cpu;
                 }
-                if cpu > cpu_budget_ns {
+                if cpu > cpu_budget_ns && rd.is_ok() {
                     agg.add("cpu-budget entry=read_deser".into(), json!({"bytes": hex(b), "cpu_ms": cpu / 1_000_000}));
                 }
             }
@@ -408,7 +409,7 @@ fn monitored<T>(
     if cpu > stats.1 {
         stats.1 = cpu;
     }
-    if cpu > cpu_budget_ns {
+    if cpu > cpu_budget_ns && r.is_ok() {
         agg.add(format!("cpu-budget entry={entry}"), json!({"bytes": hex(&input[..input.len().min(400)]), "cpu_ms": cpu / 1_000_000}));
     }
     if st.max_req > lim.alloc_bound(input.len()) {
